@@ -147,4 +147,18 @@ theorem conserved_on_every_tick_of_every_overbook_run (cfg : Cfg) (store : Store
   obtain ⟨a, b, c, _⟩ := ready_world_is_conserved inv.ready p hp
   exact ⟨a, b, c⟩
 
+/-- **`priority` with single-operator containers** (the mode in which it never pre-empts): the same, for any arrival batches without repetitions inside a batch -/
+theorem conserved_on_every_tick_of_every_priority_single_operator_run (cfg : Cfg) (store : Store) (pipes : Array PipeInfo) (caps : List (Nat × Nat))
+    (arrivals : List (List Nat)) (hm : cfg.multiOp = false) (ho : cfg.overcommit = false) (hq : 0 < cfg.q)
+    (wf : (freshWorld cfg store pipes caps).WFP) (hs : (freshWorld cfg store pipes caps).SegsOK) (hp : (freshWorld cfg store pipes caps).PidOK)
+    (hn : ∀ newP ∈ arrivals, newP.Nodup) :
+    ∃ w' st' res', Prio.loop (freshWorld cfg store pipes caps) {} [] arrivals = .ok (w', st', res') ∧
+      ∀ p ∈ w'.pools,
+        p.availC + cpuSum p.active + cpuSum p.suspending = p.capC ∧ p.availR + ramSum p.active + ramSum p.suspending = p.capR ∧
+        0 ≤ p.availC ∧ 0 ≤ p.availR ∧ p.suspending = [] := by
+  obtain ⟨w', st', res', h, inv⟩ := Prio.run_single_never_raises arrivals _ {} [] hn (Prio.fresh_inv_single cfg store pipes caps hm ho hq wf hs hp)
+  refine ⟨w', st', res', h, fun p hp => ?_⟩
+  obtain ⟨a, b, c, d⟩ := ready_world_is_conserved inv.ready p hp
+  exact ⟨a, b, c, d inv.over, inv.nosusp p hp⟩
+
 end Eudoxia.C03
